@@ -33,7 +33,12 @@ const (
 	spPlus
 	spHex
 	spOct
-	spLeadZero // correspondence stream only
+	spLeadZero // "0%d"
+	spPad3     // "%03d"
+	spPad5     // "%05d"
+	spHexUp    // "0x%X"
+	spBigX     // "0X%X": not in the grammar ('0x' is lower case only): must be rejected or read right
+	spBin      // "0b%b": not in the grammar: must be rejected or read right
 )
 
 type CVal struct {
@@ -344,22 +349,13 @@ func (g *docGen) field() *Field {
 		default:
 			f.ID = int64(g.r.Intn(40))
 		}
-		if f.ID >= 0 && g.r.Chance(10) {
-			f.Sp = spPlus
-		}
-		if g.risky && g.r.Chance(40) {
-			if f.ID >= 0 && g.r.Bool() {
-				f.Sp = []int{spHex, spOct}[g.r.Intn(2)]
-			} else {
-				f.ID = []int64{2147483648, 99999999999, -2147483649, -99999999999}[g.r.Intn(4)]
-				f.Sp = spDec
-			}
+		f.Sp = g.idSpelling(f.ID, true)
+		if g.risky && g.r.Chance(25) {
+			f.ID = []int64{2147483648, 99999999999, -2147483649, -99999999999}[g.r.Intn(4)]
+			f.Sp = spDec
 		}
 		if g.wild && g.r.Chance(10) {
 			f.ID, f.Sp = -999999, spDec
-		}
-		if g.wild && g.r.Chance(10) && f.ID >= 0 {
-			f.Sp = spLeadZero
 		}
 	}
 	if g.r.Chance(35) {
@@ -391,10 +387,9 @@ func (g *docGen) def() *Def {
 				ev.HasVal = true
 				ev.Val, ev.Sp = g.intVal()
 				if g.r.Chance(70) {
-					ev.Val = int64(g.r.Intn(100))
-					if ev.Sp == spLeadZero && !g.wild {
-						ev.Sp = spDec
-					}
+					ev.Val = int64(g.r.Intn(100)) - int64(g.r.Intn(12))/10*int64(g.r.Intn(50))
+					// `A = 0X1F` is grammatical with another meaning (`A = 0`, then a member `X1F`): only the wild stream writes it
+					ev.Sp = g.idSpelling(ev.Val, g.wild)
 				}
 			}
 			d.Vals = append(d.Vals, ev)
@@ -573,33 +568,100 @@ func (w *renderer) literal(s string) {
 	w.tok(sb.String())
 }
 
+// intText spells v. Every spelling works for every value: negative values keep their sign in front (`-010`, `-0x1f`
+// is not in the grammar, so negative values are only spelled in decimal forms).
 func intText(v int64, sp int, r *vl.Rng) string {
+	if v < 0 {
+		switch sp {
+		case spLeadZero:
+			return "-0" + strconv.FormatUint(uint64(-v), 10)
+		case spPad3:
+			return fmt.Sprintf("%03d", v)
+		case spPad5:
+			return fmt.Sprintf("%05d", v)
+		}
+		return strconv.FormatInt(v, 10)
+	}
 	switch sp {
 	case spPlus:
-		if v >= 0 {
-			return "+" + strconv.FormatInt(v, 10)
-		}
+		return "+" + strconv.FormatInt(v, 10)
 	case spHex:
-		if v >= 0 {
-			h := strconv.FormatInt(v, 16)
-			b := []byte(h)
-			for i := range b {
-				if b[i] >= 'a' && r.Bool() {
-					b[i] -= 32
-				}
+		b := []byte(strconv.FormatInt(v, 16))
+		for i := range b {
+			if b[i] >= 'a' && r.Bool() {
+				b[i] -= 32
 			}
-			return "0x" + string(b)
 		}
+		return "0x" + string(b)
+	case spHexUp:
+		return fmt.Sprintf("0x%X", v)
+	case spBigX:
+		return fmt.Sprintf("0X%X", v)
+	case spBin:
+		return fmt.Sprintf("0b%b", v)
 	case spOct:
-		if v >= 0 {
-			return "0o" + strconv.FormatInt(v, 8)
-		}
+		return "0o" + strconv.FormatInt(v, 8)
 	case spLeadZero:
-		if v >= 0 {
-			return "0" + strconv.FormatInt(v, 10)
-		}
+		return "0" + strconv.FormatInt(v, 10)
+	case spPad3:
+		return fmt.Sprintf("%03d", v)
+	case spPad5:
+		return fmt.Sprintf("%05d", v)
 	}
 	return strconv.FormatInt(v, 10)
+}
+
+// enumRule is the documented reading of an explicit enum value (parser.go parseEnum): a base-prefixed literal first
+// (`0x`, `0o`, and C-style `0` + octal digits: `010` = 8), a decimal number otherwise (`08` = 8). Written out here
+// without strconv's base 0 so that the expectation is independent of the code under test.
+func enumRule(text string) int64 {
+	neg := strings.HasPrefix(text, "-")
+	t := strings.TrimLeft(text, "+-")
+	var u uint64
+	switch {
+	case strings.HasPrefix(t, "0x"):
+		u, _ = strconv.ParseUint(t[2:], 16, 64)
+	case strings.HasPrefix(t, "0o"):
+		u, _ = strconv.ParseUint(t[2:], 8, 64)
+	case len(t) > 1 && t[0] == '0' && strings.Trim(t, "01234567") == "":
+		u, _ = strconv.ParseUint(t[1:], 8, 64)
+	default:
+		u, _ = strconv.ParseUint(t, 10, 64)
+	}
+	if neg {
+		return -int64(u)
+	}
+	return int64(u)
+}
+
+// idSpelling picks a spelling for an explicit field id or enum value.
+func (g *docGen) idSpelling(v int64, lenient bool) int {
+	if v < 0 {
+		return []int{spDec, spDec, spLeadZero, spPad3, spPad5}[g.r.Intn(5)]
+	}
+	switch p := g.r.Intn(100); {
+	case p < 40:
+		return spDec
+	case p < 50:
+		return spPlus
+	case p < 58:
+		return spLeadZero
+	case p < 66:
+		return spPad3
+	case p < 72:
+		return spPad5
+	case p < 80:
+		return spHex
+	case p < 86:
+		return spHexUp
+	case p < 94:
+		return spOct
+	case !lenient:
+		return spDec
+	case p < 97:
+		return spBigX
+	}
+	return spBin
 }
 
 func (w *renderer) anns(a Anns) {
@@ -905,7 +967,7 @@ func expected(d *Doc) *parser.Thrift {
 				o := &parser.EnumValue{Name: v.Name, Annotations: expAnns(v.Anns)}
 				switch {
 				case v.HasVal:
-					o.Value = v.Val
+					o.Value = enumRule(intText(v.Val, v.Sp, vl.NewRng(1)))
 				case len(e.Values) > 0:
 					o.Value = e.Values[len(e.Values)-1].Value + 1
 				}
@@ -942,7 +1004,7 @@ func expected(d *Doc) *parser.Thrift {
 // ---------------------------------------------------------------- features (for classifying a minimised failure)
 
 type features struct {
-	expDouble, idNonDecimal, idRange, reqPrefixType bool
+	expDouble, idNonDecimal, idRange, reqPrefixType, idPadded, enumSpelled, lenient bool
 }
 
 func (d *Doc) features() features {
@@ -978,8 +1040,14 @@ func (d *Doc) features() features {
 		for _, x := range fs {
 			ty(x.Type)
 			cv(x.Default)
-			if x.HasID && (x.Sp == spHex || x.Sp == spOct) {
+			if x.HasID && (x.Sp == spHex || x.Sp == spOct || x.Sp == spHexUp) {
 				f.idNonDecimal = true
+			}
+			if x.HasID && (x.Sp == spLeadZero || x.Sp == spPad3 || x.Sp == spPad5) {
+				f.idPadded = true
+			}
+			if x.HasID && x.ID >= 0 && (x.Sp == spBigX || x.Sp == spBin) {
+				f.lenient = true
 			}
 			if x.HasID && int64(int32(x.ID)) != x.ID {
 				f.idRange = true
@@ -990,6 +1058,11 @@ func (d *Doc) features() features {
 		ty(x.Type)
 		cv(x.Value)
 		fld(x.Fields)
+		for _, v := range x.Vals {
+			if v.HasVal && v.Sp != spDec {
+				f.enumSpelled = true
+			}
+		}
 		for _, fn := range x.Funcs {
 			ty(fn.Type)
 			fld(fn.Args)
@@ -1003,8 +1076,12 @@ func (f features) class() string {
 	switch {
 	case f.expDouble:
 		return "double-exponent"
+	case f.idPadded:
+		return "fieldid-padded"
 	case f.idNonDecimal:
 		return "fieldid-nondecimal"
+	case f.enumSpelled:
+		return "enumvalue-spelling"
 	case f.idRange:
 		return "fieldid-range"
 	case f.reqPrefixType:
